@@ -857,6 +857,25 @@ def own(ctx):
                 held.append("%s.%s: %s" % (a_["path"].split("::")[-1], f_["name"], short_ty(f_["ty"])))
     out.append(Inst("OWN", "context-holds-no-request-sender", not held, "src/client/context.rs", "fields of the context's own structs that hold a sending end of the request queue: %s" % (held or "none"),
                     "run() ends with HandleClosed once every handle is gone: the context itself keeps no handle"))
+    # every request a handle queued reaches the loop of run(): nothing else takes messages out of the request queue
+    # (a set_up() / connect() that drains "stale" requests drops operations whose callers were told nothing)
+    readers = []
+    n_run = 0
+    for _, ub in ctx.client_units():
+        for i in sorted(ub.reach):
+            t = ub.term(i)
+            if t["k"] != "call" or not t["ops"] or t["ops"][0].get("k") == "const":
+                continue
+            pl = t["ops"][0]["pl"]
+            ty = ub.locals[pl["l"]]["ty"] if not pl["p"] else ""
+            if not re.search(r"Receiver<client::message::ContextMessage>", ty) or re.search(r"^(std::|core::)?(mem|ptr)::", callee_name(t) or ""):
+                continue
+            if re.search(r"::run(::|$)", ub.path):
+                n_run += 1
+            elif not ub.path.endswith("::new"):
+                readers.append("%s at %s" % (short_ty(callee_name(t) or "?"), ub.site(i)))
+    out.append(Inst("OWN", "request-queue-read-only-in-run", not readers, "src/client/context.rs", "uses of the receiving end of the request queue outside run(): %s (inside run(): %d)" % (readers or "none", n_run),
+                    "a queued request is taken out of the queue by the loop of run() only"))
     sess = ctx.facts.adt(SESSION)
     if not sess:
         raise AnchorLost("Session struct")
@@ -1205,7 +1224,7 @@ def resume_order(ctx):
         rsite = clears[0].site() if clears else run.site(0)
     sess = ctx.facts.adt(SESSION)
     def _is_queue(ty):
-        if "VecDeque" in ty:
+        if "VecDeque" in ty or re.match(r"std::vec::Vec<", ty):
             return True
         a_ = ctx.facts.adt(ty)         # a queue wrapped in a private newtype (`struct UnreleasedIds(VecDeque<u16>)`)
         return a_ is not None and a_["kind"] == "struct" and len(a_["variants"][0]["fields"]) == 1 and "VecDeque" in a_["variants"][0]["fields"][0]["ty"]
